@@ -28,7 +28,7 @@ ASSUMPTIONS = ["the INI line reader in rv/fmt_treeinfo.py is the trusted indepen
                "the secondary monitor uses the library's own header-less reader as the stand-in for a pre-productmd reader"]
 REQUIRED_REACH = ["treeinfo.General.serialize", "treeinfo.TreeInfo.dump", "treeinfo.TreeInfo.serialize", "treeinfo.Tree.serialize"]
 REQUIRED_MONITORS = ["general-mirrors-release-tree", "general-variant-choice", "general-packagedir-repository", "legacy-reader-sees-same-tree"]
-CLASS_FLOORS = {"main-none": 10, "main-top": 10, "main-nested": 5, "main-not-first": 5, "src-tree": 10, "binary-tree": 10,
+CLASS_FLOORS = {"variants-made-for-another-tree": 20, "object-read-from-a-file-written-with-another-main-variant": 20, "main-none": 10, "main-top": 10, "main-nested": 5, "main-not-first": 5, "src-tree": 10, "binary-tree": 10,
                 "ts-float": 10, "ts-int": 10, "several-top": 10, "extra-platforms": 10, "main-has-packages": 5,
                 "main-has-repository": 5, "main-has-neither": 5, "src-fallback-packages": 5, "src-fallback-repository": 5,
                 "src-both-binary-and-source-paths": 3, "binary-tree-only-source-paths": 3, "dump-to-path": 5}
@@ -73,7 +73,15 @@ def gen_case(rng, i):
         main = tops[-1]
     else:
         main = rng.choice(tops)
-    return {"D": D, "main_variant": main, "order_seed": rng.randrange(1 << 30), "to_path": i % 7 == 0}
+    case = {"D": D, "main_variant": main, "order_seed": rng.randrange(1 << 30), "to_path": i % 7 == 0}
+    if i % 4 == 1:
+        # the object that is written was READ from a file - one written with another main variant than the one asked for now
+        others = [u for u in tops if u != main] + ([None] if main is not None else [])
+        case["via_reload_of_a_file_written_with_main"] = rng.choice(others) if others and rng.random() < 0.8 else main
+        case["via_reload"] = True
+    if i % 6 == 3:
+        D["variants_made_for_another_tree"] = True
+    return case
 
 
 def find_variant(D, uid):
@@ -88,6 +96,14 @@ def check_case(ctx, pm, case, tmpdir):
     rng = random.Random(case["order_seed"])
     try:
         ti = F.build(pm, D, rng)
+        if D.get("variants_made_for_another_tree"):
+            ctx.count("variants-made-for-another-tree")
+        if case.get("via_reload"):
+            first = io.StringIO()
+            ti.dump(first, main_variant=case["via_reload_of_a_file_written_with_main"])
+            ti = pm.TreeInfo()
+            ti.loads(first.getvalue())
+            ctx.count("object-read-from-a-file" + ("-written-with-another-main-variant" if case["via_reload_of_a_file_written_with_main"] != main else ""))
         if case.get("to_path"):
             import os
             path = os.path.join(tmpdir, "treeinfo")
